@@ -115,6 +115,18 @@ class C03(Prop):
             lines.append("strm %s vec - %s" % (rng.choice(["strip", "never"]), ",".join("%s:%s" % (op, gen.hexs(c)) for c in chunks if c)))
         yield "stream-chunked-write_all", [l for l in lines if not l.endswith(" - ")]
         yield "stream-chunks-beyond-64KiB", big_chunk_cases(rng, tier == "thorough")
+        # two chunks through a StripStream / never-stream over the REAL stdout / stderr (child process, pipe captured) with
+        # `.lock()` between them: handing the stream over is not a chunk boundary the result may depend on
+        lines = []
+        for i in range(120 if tier == "thorough" else 40):
+            data = gen.grammar_stream(rng, pieces=rng.choice([2, 3, 5]))
+            if i % 3 == 0:
+                data = list("<<a\x1b[1mb\x1b]0;t\x07\u20acc>>".encode())
+            if not data:
+                continue
+            cut = rng.randrange(0, len(data) + 1)
+            lines.append("lk8 %s %s %s %s" % (rng.choice(["strip", "never"]), rng.choice(["out", "err"]), gen.hexs(data[:cut]), gen.hexs(data[cut:])))
+        yield "locked-std-streams", lines
 
     def observe(self, ctx, name, lines, results):
         from .c06 import strm_spec_observe
@@ -124,6 +136,8 @@ class C03(Prop):
         parts = line.split(" ")
         if parts[0] == "strm":
             return "1b" in parts[4]
+        if parts[0] == "lk8":
+            return "1b" in parts[3] + parts[4]
         if parts[0] in ("sbccat", "ssccat"):
             return parts[2] != "-" and impl != parts[1]
         if parts[0] == "sbxcat":
